@@ -312,6 +312,17 @@ CLIP_SPECS = [
      {'sheets': [['Sheet1', {'A1': 5}]], 'names': {}, 'arrays': [], 'calc': None}, 'Sheet1!A:A', 5),
     ('unbounded-range-clipped-to-a-single-cell',
      {'sheets': [['Sheet1', {'A1': 5}]], 'names': {}, 'arrays': [], 'calc': None}, 'Sheet1!1:1', 5),
+    # the whole used area is one cell and the unbounded range does not pass through it: nothing to clip to
+    ('unbounded-range-outside-the-used-area',
+     {'sheets': [['Sheet1', {'A1': 5}]], 'names': {}, 'arrays': [], 'calc': None}, 'Sheet1!B:B', None),
+    ('unbounded-range-outside-the-used-area',
+     {'sheets': [['Sheet1', {'A1': 5}]], 'names': {}, 'arrays': [], 'calc': None}, 'Sheet1!2:2', None),
+    ('unbounded-range-outside-the-used-area',
+     {'sheets': [['Sheet1', {'A1': '=SUM(T!B:B)+COUNT(T!2:2)+1'}], ['T', {'A1': 42}]], 'names': {}, 'arrays': [],
+      'calc': None}, 'Sheet1!A1', 1),
+    ('unbounded-range-clipped-to-a-single-cell',
+     {'sheets': [['Sheet1', {'A1': '=SUM(T!A:A)+COUNT(T!1:1)+1'}], ['T', {'A1': 42}]], 'names': {}, 'arrays': [],
+      'calc': None}, 'Sheet1!A1', 44),
     # a column right of the used area: nothing to clip to
     ('unbounded-range-outside-the-used-area',
      {'sheets': [['Sheet1', {'A1': 5, 'A2': 7, 'B1': 1, 'B2': 2}]], 'names': {}, 'arrays': [], 'calc': None},
